@@ -1601,7 +1601,7 @@ fn main() {
                 "glob-api",
                 n * n,
                 &format!(
-                    "ALL histories of length <= {gdepth} ({g_total} transitions) over {n} operations: load_from_glob of six directories (two valid, one with a syntax error, one with a dangling parent, one valid only next to a manual template, one redefining the component), of a pattern without `*`, of a pattern that does not build, of a pattern matching nothing; full_reload; three manual templates valid only next to the right glob. After EVERY call: accepted exactly when the requested set is valid on a fresh instance, and the instance (template names, render and render_block of nine names, component definition, render_component, render_str) equal to a fresh instance holding the expected state"
+                    "ALL histories of length <= {gdepth} ({g_total} transitions) over {n} operations: load_from_glob of six directories (two valid, one with a syntax error, one with a dangling parent, one valid only next to a manual template, one redefining the component), of a pattern without `*`, of a pattern that does not build, of a pattern matching nothing; full_reload; three manual templates valid only next to the right glob and one whose name the globs carry too (added by hand after a load it becomes a hand-added template, a later load that finds the file takes it back). After EVERY call: accepted exactly when the requested set is valid on a fresh instance, and the instance (template names, render and render_block of nine names, component definition, render_component, render_str) equal to a fresh instance holding the expected state"
                 ),
             )
             .describe(|item| json!({"api": "load_from_glob / full_reload", "history_prefix": [globfam::op_json(gops_ref[(item / n) as usize]), globfam::op_json(gops_ref[(item % n) as usize])], "note": "every continuation of this prefix up to the depth bound is executed inside the item"}))
@@ -1614,14 +1614,14 @@ fn main() {
         // the files change between the calls
         let cops = globfam::changing_ops();
         let cn = cops.len() as u64;
-        let cdepth: u32 = if thorough { 7 } else { 6 };
+        let cdepth: u32 = if thorough { 7 } else { 5 };
         let cops_ref = &cops;
         run.family(
             Family::new(
                 "glob-api-changing-files",
                 cn * cn,
                 &format!(
-                    "ALL histories of length <= {cdepth} over {cn} operations (two file changes in a row count as one): the files of a directory private to the worker change between the calls (5 variants: valid, a file stopped parsing, a file removed, no file at all, valid with other content); load_from_glob of that directory and of a fixed one, full_reload, a refused pattern, a manual template including one of the glob's files. Same oracle after every engine call: a reload can be refused (nothing changes, the glob stays) and must work again once the files are repaired; a glob that finds no file at all still has to leave a valid set"
+                    "ALL histories of length <= {cdepth} over {cn} operations (two file changes in a row count as one): the files of a directory private to the worker change between the calls (5 variants: valid, a file stopped parsing, a file removed, no file at all, valid with other content); load_from_glob of that directory and of a fixed one, full_reload, a refused pattern, a manual template including one of the glob's files, a manual template with the name AND text of one of the glob's files (from then on hand-added: it survives the file's removal). Same oracle after every engine call: a reload can be refused (nothing changes, the glob stays) and must work again once the files are repaired; a glob that finds no file at all still has to leave a valid set"
                 ),
             )
             .describe(|item| json!({"api": "load_from_glob / full_reload over changing files", "history_prefix": [globfam::op_json(cops_ref[(item / cn) as usize]), globfam::op_json(cops_ref[(item % cn) as usize])], "note": "every continuation of this prefix up to the depth bound is executed inside the item"}))
